@@ -60,6 +60,19 @@ def reachable_from(eng, entry):
     return seen
 
 
+KNOWN_UNSUMMARISED = {('connection.H2ConnectionStateMachine.process_input',
+                       'func')}
+
+
+def require_summaries(ctx, eng, reach):
+    """Fail closed (exit 2, not a verdict) when an external call without a
+    summary line is reachable: its exceptions are unknown."""
+    miss = sorted({(q, n) for q, n in eng.R.unsummarised
+                   if q in reach} - KNOWN_UNSUMMARISED)
+    ctx.require(not miss, 'external calls without a summary line are '
+                'reachable, the escape set cannot be decided: %r' % miss[:6])
+
+
 def run(ctx, eng):
     ctx.rule('ESC: exception-escape set of receive_data over the resolved '
              'call graph; each partial operation / assertion / external '
@@ -70,6 +83,7 @@ def run(ctx, eng):
     reach = reachable_from(eng, fi.qual)
     ctx.record('functions_reachable', len(reach))
     ctx.floor('functions_reachable', 70)
+    require_summaries(ctx, eng, reach)
     # ---- per-obligation accounting inside the reachable set
     D = eng.D
     n_ops = n_dis = 0
@@ -110,11 +124,11 @@ def run(ctx, eng):
     bad = {x: w for x, w in esc.items()
            if not m.exc_is_subclass(x, 'ProtocolError')}
     for x, w in sorted(bad.items()):
-        origin = w[-1]
-        ctx.ob('ESC', fi.qual, '%s<-%s|%s' % (x, origin[0], _norm(origin[2])),
-               False, '%s can leave receive_data: %s' % (x,
-                                                         format_witness(w)),
-               loc=origin[1])
+        for origin, pth in sorted(w.origins.items()):
+            ctx.ob('ESC', fi.qual, '%s<-%s|%s' % (x, origin[0],
+                                                  _norm(origin[2])),
+                   False, '%s can leave receive_data: %s'
+                   % (x, format_witness(pth)), loc=origin[1])
     for x in sorted(esc):
         if x not in bad:
             ctx.ob('ESC', fi.qual, 'may raise %s' % x, True,
